@@ -38,6 +38,14 @@ def multi_defect_configs():
                                 "services": {"svc": {"constructor": "1x"}, "SVC": {"constructor": "2x"}, "Svc": {"constructor": "3x"}}}
     out["aliases"] = {"meta": {"pkg": "gen", "imports": {"exp": "exp1/my", "exp1": "other/p", "ex": "e/x", "a": "x/y", "a.b": "std"}},
                       "services": {"s1": {"constructor": "exp1/ossuary/pkg.New"}, "s2": {"constructor": "exp/os.New"}, "s3": {"constructor": "a.b/c.New"}, "s4": {"value": "ex/v.V"}, "s5": {"type": "*exp12/t.T"}}}
+    # chains: the target of one alias starts with a segment that is itself an alias (an expansion applied again would depend on
+    # the iteration order of the alias table) — six independent chains, each referenced
+    ch = {}
+    for k in range(6):
+        ch["c%d" % k] = "d%d/x" % k
+        ch["d%d" % k] = "far/away%d" % k
+    out["alias-chains"] = {"meta": {"pkg": "gen", "imports": ch},
+                           "services": dict({"s%d" % k: {"constructor": "c%d/sub.New" % k} for k in range(6)}, **{"t%d" % k: {"value": "d%d/v.V" % k} for k in range(6)})}
     return out
 
 
